@@ -19,7 +19,19 @@ pub struct Val {
     pub d: D,
 }
 
-fn check_text(v: &mut Verdict, what: &str, text: &str, orig: &Dec, same_repr: bool) {
+/// how much of the representation a rendering must preserve
+#[derive(Clone, Copy, PartialEq)]
+enum Repr {
+    /// identical digits and scale
+    Same,
+    /// an integer written out with its zeros (Display at scales -upper..-1, plain notation at negative scales): the zeros
+    /// up to the units place are appended and nothing else - the text re-parses with scale 0
+    IntegerWrittenOut,
+    /// engineering notation: the value only
+    ValueOnly,
+}
+
+fn check_text(v: &mut Verdict, what: &str, text: &str, orig: &Dec, repr: Repr) {
     let sig = |k: &str| format!("C04/{}:{}", k, what);
     let lib = BigDecimal::from_str(text);
     let lib = match lib {
@@ -35,9 +47,15 @@ fn check_text(v: &mut Verdict, what: &str, text: &str, orig: &Dec, same_repr: bo
         None => ensure!(v, false, sig("not-a-numeral"), "{} produced {:?} which is not a numeral by the reference grammar", what, crate::engine::truncate(text, 120)),
         Some((i, s)) => ensure!(v, i == got.int && s as i128 == got.scale, sig("reference-disagrees"), "{}: reference evaluator reads {:?} as ({}, {})", what, crate::engine::truncate(text, 120), i, s),
     }
-    if same_repr {
-        ensure!(v, got == *orig, sig("repr-changed"), "{} produced {:?} which parses to digits/scale {} instead of {}", what, crate::engine::truncate(text, 120), got.show(), orig.show());
+    match repr {
+        Repr::Same => ensure!(v, got == *orig, sig("repr-changed"), "{} produced {:?} which parses to digits/scale {} instead of {}", what, crate::engine::truncate(text, 120), got.show(), orig.show()),
+        Repr::IntegerWrittenOut => ensure!(v, got.scale == 0, sig("fraction-invented"), "{} wrote the integer {} as {:?}, which parses with scale {}", what, orig.show(), crate::engine::truncate(text, 120), got.scale),
+        Repr::ValueOnly => {}
     }
+    // the integer part carries no superfluous leading zero (a zero value may be written with its zeros)
+    let body = text.strip_prefix('-').unwrap_or(text);
+    let ip = body.split(|ch| ch == '.' || ch == 'e' || ch == 'E').next().unwrap_or("");
+    ensure!(v, ip == "0" || !ip.starts_with('0') || orig.is_zero(), sig("leading-zero"), "{} produced {:?} with a superfluous leading zero", what, crate::engine::truncate(text, 120));
 }
 
 pub fn check_val(c: &Val) -> Verdict {
@@ -55,8 +73,10 @@ pub fn check_val(c: &Val) -> Verdict {
     let neg_val = -x.clone();
     ensure!(v, format!("{}", -x.to_ref()) == format!("{}", neg_val), "C04/negref-differs:display", "Display of -ref {:?} and of the negated value {:?} differ", format!("{}", -x.to_ref()), format!("{}", neg_val));
     ensure!(v, format!("{:e}", -x.to_ref()) == format!("{:e}", neg_val), "C04/negref-differs:lowerexp", "{{:e}} of -ref and of the negated value differ");
-    let padded = scale < 0 && -scale <= (cfg.upper as i128).min(20);
-    check_text(&mut v, "display", &disp, &m, !padded);
+    ensure!(v, format!("{:E}", -x.to_ref()) == format!("{:E}", neg_val), "C04/negref-differs:upperexp", "{{:E}} of -ref and of the negated value differ");
+    ensure!(v, format!("{}", x.to_ref().abs()) == format!("{}", x.abs()), "C04/absref-differs:display", "Display of |ref| {:?} and of the absolute value {:?} differ", format!("{}", x.to_ref().abs()), format!("{}", x.abs()));
+    let padded = scale < 0 && -scale <= cfg.upper as i128;
+    check_text(&mut v, "display", &disp, &m, if padded { Repr::IntegerWrittenOut } else { Repr::Same });
     // notation switch
     let leading_zeros = if scale > nd { scale - nd } else { 0 };
     let trailing_zeros = if scale < 0 { -scale } else { 0 };
@@ -70,20 +90,20 @@ pub fn check_val(c: &Val) -> Verdict {
     let ue = format!("{:E}", x);
     ensure!(v, le == format!("{:e}", x.to_ref()), "C04/ref-differs:lowerexp", "{{:e}} of value and reference differ");
     ensure!(v, ue == format!("{:E}", x.to_ref()), "C04/ref-differs:upperexp", "{{:E}} of value and reference differ");
-    check_text(&mut v, "lowerexp", &le, &m, true);
-    check_text(&mut v, "upperexp", &ue, &m, true);
+    check_text(&mut v, "lowerexp", &le, &m, Repr::Same);
+    check_text(&mut v, "upperexp", &ue, &m, Repr::Same);
     ensure!(v, le.contains('e') && ue.contains('E') && le.to_uppercase() == ue, "C04/exp-symbol", "{{:e}} = {:?}, {{:E}} = {:?}", crate::engine::truncate(&le, 80), crate::engine::truncate(&ue, 80));
     // --- scientific / engineering
     let sci = x.to_scientific_notation();
     let mut w = String::new();
     x.write_scientific_notation(&mut w).unwrap();
     ensure!(v, sci == w, "C04/write-differs:scientific", "to_scientific_notation and write_scientific_notation differ");
-    check_text(&mut v, "scientific", &sci, &m, true);
+    check_text(&mut v, "scientific", &sci, &m, Repr::Same);
     let eng = x.to_engineering_notation();
     let mut w = String::new();
     x.write_engineering_notation(&mut w).unwrap();
     ensure!(v, eng == w, "C04/write-differs:engineering", "to_engineering_notation and write_engineering_notation differ");
-    check_text(&mut v, "engineering", &eng, &m, false);
+    check_text(&mut v, "engineering", &eng, &m, Repr::ValueOnly);
     // --- plain (only where the text stays small)
     if scale.abs() <= 20_000 {
         let plain = x.to_plain_string();
@@ -91,7 +111,7 @@ pub fn check_val(c: &Val) -> Verdict {
         x.write_plain_string(&mut w).unwrap();
         ensure!(v, plain == w, "C04/write-differs:plain", "to_plain_string and write_plain_string differ");
         ensure!(v, !plain.contains('e') && !plain.contains('E'), "C04/plain-has-exponent", "plain string {:?} has an exponent", crate::engine::truncate(&plain, 80));
-        check_text(&mut v, "plain", &plain, &m, scale >= 0);
+        check_text(&mut v, "plain", &plain, &m, if scale >= 0 { Repr::Same } else { Repr::IntegerWrittenOut });
         v.labels.push("plain-checked");
     }
     v
